@@ -7,6 +7,7 @@
 // may only handle numeric data type
 
 #include "nmtools/meta/common.hpp"
+#include "nmtools/def.hpp"
 // for variadic constructor
 #include "nmtools/utl/tuple.hpp"
 #include "nmtools/meta/loop.hpp"
@@ -246,11 +247,13 @@ namespace nmtools::utl
         reference at(size_type i)
         {
             // TODO: assert/throw
+            NMTOOLS_VERIF_INDEX(i,size_,2);
             return buffer_[i];
         }
 
         const_reference at(size_type i) const
         {
+            NMTOOLS_VERIF_INDEX(i,size_,2);
             return buffer_[i];
         }
 
@@ -261,11 +264,13 @@ namespace nmtools::utl
 
         reference operator[](size_type i) noexcept
         {
+            NMTOOLS_VERIF_INDEX(i,size_,2);
             return buffer_[i];
         }
 
         const_reference operator[](size_type i) const noexcept
         {
+            NMTOOLS_VERIF_INDEX(i,size_,2);
             return buffer_[i];
         }
 
